@@ -217,6 +217,9 @@ def _run_linear(case):
     nt = O >= 2 and _asym(wtest) and nonconst
     if kind == "lateral":
         nt = nt and bool(np.any(np.diag(wm) != 0))
+    if not nt:
+        cls.append("trivial:" + ("O<2" if O < 2 else "weight-symmetric" if not _asym(wtest) else
+                                 "current-constant" if not nonconst else "lateral-zero-diag-assigned"))
     return {"nt": bool(nt), "cls": cls}
 
 
@@ -385,6 +388,9 @@ def _run_conv(case):
     if ker[0] * ker[1] > 1:
         cls.append("kernel>1x1")
     nt = F * g.OH * g.OW >= 2 and _asym(wm) and nonconst
+    if not nt:
+        cls.append("trivial:" + ("out<2" if F * g.OH * g.OW < 2 else "weight-symmetric" if not _asym(wm)
+                                 else "current-constant"))
     return {"nt": bool(nt), "cls": cls}
 
 
@@ -459,9 +465,11 @@ def run_conv(case):
 # ---------------------------------------------------------------------------- lateral stateful leg
 
 
-def _offdiag_equal(a: np.ndarray, b: np.ndarray, tol: float) -> bool:
+def _offdiag_equal(a: np.ndarray, b: np.ndarray) -> bool:
+    """off-diagonal entries agree to float32 rounding of one addition (inferno's random initial
+    weights are not dyadic, so `w + update` rounds)."""
     m = ~np.eye(a.shape[0], dtype=bool)
-    return bool(np.all(np.abs(a[m] - b[m]) <= tol))
+    return bool(np.all(np.abs(a[m] - b[m]) <= 2e-6 * (1.0 + np.abs(b[m]))))
 
 
 def _run_lateral(case):
@@ -475,7 +483,15 @@ def _run_lateral(case):
     dmax = None if not delayed else case["delay_steps"] * dt
     torch.manual_seed(case["seed"])
     mat = lambda spec: M.vals(spec, N * N).reshape(N, N)  # noqa: E731
-    dmat = lambda spec: (np.abs(M.vals(spec, N * N, scale=1.0)) % (case["delay_steps"] + 1)).reshape(N, N) * dt  # noqa: E731
+
+    def dmat(spec):
+        """valid delays (whole steps in [0, capacity]); non-zero draws stay non-zero when capacity allows"""
+        v = np.abs(M.vals(spec, N * N, scale=1.0))
+        steps = case["delay_steps"]
+        if steps == 0:
+            return np.zeros((N, N))
+        return np.where(v == 0, 0.0, (v - 1) % steps + 1).reshape(N, N) * dt
+
 
     kw = dict(synapse=DeltaCurrent.partialconstructor(1.0), bias=case["bias"], delay=dmax, batch_size=B)
     wm = dm = None
@@ -516,7 +532,7 @@ def _run_lateral(case):
         check(bool(np.all(dg == 0)), "lateral:diag:weight", lambda: f"after {what}: diag(weight) = {dg.tolist()}",
               {"op": what.split(" ")[1] if " " in what else what})
         if wm is not None and exact_w:
-            check(_offdiag_equal(wn, wm, 0.0), "lateral:offdiag:weight",
+            check(_offdiag_equal(wn, wm), "lateral:offdiag:weight",
                   lambda: f"after {what}: off-diagonal weights {wn.tolist()} != assigned/accumulated {wm.tolist()}")
         wm = wn
         if delayed:
@@ -525,7 +541,7 @@ def _run_lateral(case):
             check(bool(np.all(dgd == 0)), "lateral:diag:delay", lambda: f"after {what}: diag(delay) = {dgd.tolist()}",
                   {"op": what.split(" ")[1] if " " in what else what})
             if dm is not None and exact_d:
-                check(_offdiag_equal(dn, dm, 0.0), "lateral:offdiag:delay",
+                check(_offdiag_equal(dn, dm), "lateral:offdiag:delay",
                       lambda: f"after {what}: off-diagonal delays {dn.tolist()} != assigned/accumulated {dm.tolist()}")
             dm = dn
         else:
@@ -563,10 +579,20 @@ def _run_lateral(case):
         elif name in ("uw", "ud"):
             if name == "ud" and not delayed:
                 continue
-            pos = np.abs(mat(op[1]))
-            neg = np.abs(mat(op[2])) * 0.5
             mode = op[3] % 3  # 0: (pos, neg)  1: pos only (bare tensor)  2: (None, neg)
             acc = pend_w if name == "uw" else pend_d
+            if name == "uw":
+                pos = np.abs(mat(op[1]))
+                neg = np.abs(mat(op[2])) * 0.5
+            else:
+                # keep every off-diagonal delay inside [0, capacity] after the update (documented
+                # range of a learned delay); the diagonal contribution is free, it must be masked
+                off = ~np.eye(N, dtype=bool)
+                cur_ = dm + sum((s_ * m_ for s_, m_ in pend_d), np.zeros((N, N)))
+                pos, neg = dmat(op[1]), dmat(op[2])
+                pos = np.where(off, np.minimum(pos, np.clip(dmax - cur_, 0, None)), pos)
+                cur_ = cur_ + (pos if mode != 2 else 0)
+                neg = np.where(off, np.minimum(neg, np.clip(cur_, 0, None)), neg)
             with impl(what):
                 tgt = "weight" if name == "uw" else "delay"
                 if mode == 0:
@@ -620,7 +646,10 @@ def _run_lateral(case):
         if stats[k_]:
             cls.append(k_)
     nt = (N >= 2 and stats["assign_w_diag"] >= 1 and stats["upd_w_diag"] >= 1
-          and (not delayed or (stats["assign_d_diag"] + stats["upd_d_diag"]) >= 1))
+          and (not case["delay_steps"] or (stats["assign_d_diag"] + stats["upd_d_diag"]) >= 1))
+    if not nt:
+        cls.append("trivial:" + ("N<2" if N < 2 else "no-diag-weight-assignment" if not stats["assign_w_diag"]
+                                 else "no-diag-weight-update" if not stats["upd_w_diag"] else "no-diag-delay-op"))
     return {"nt": bool(nt), "cls": cls}
 
 
@@ -638,6 +667,16 @@ _seed = st.one_of(st.just(0), st.just(0), st.integers(1, 2**31 - 1), st.integers
 @st.composite
 def _spec(draw):
     return {"pool": draw(_pool), "seed": draw(_seed)}
+
+
+@st.composite
+def _rich(draw):
+    """mostly seeded (non-constant, non-periodic) values; shrinks to a constant pool."""
+    seed = draw(st.one_of(st.just(0), *[st.integers(1, 2**31 - 1)] * 5))
+    return {"pool": draw(_pool), "seed": seed}
+
+
+_nzpool = st.lists(st.sampled_from([3, -1, 2, 1, -4, 5]), min_size=1, max_size=4)
 
 
 @st.composite
@@ -659,13 +698,13 @@ def _common(draw, tier):
         "spkdtype": draw(st.sampled_from(["bool", "float"])),
         "ninj": draw(st.sampled_from([1, 1, 1, 2, 0])),
         "seed": draw(st.integers(0, 2**20)),
-        "w": draw(_spec()),
+        "w": draw(_rich()),
         "b": draw(_spec()),
-        "steps": [{"k": k, "spk": draw(_spec()), "inj": draw(_spec())} for k in range(nsteps)],
+        "steps": [{"k": k, "spk": draw(_rich()), "inj": draw(_rich())} for k in range(nsteps)],
     }
 
 
-_dims_small = st.sampled_from([1, 2, 2, 3, 3, 4, 5])
+_dims_small = st.sampled_from([2, 3, 1, 2, 3, 4, 5])
 
 
 @st.composite
@@ -675,6 +714,8 @@ def _shape(draw, maxnumel):
     while int(np.prod(shp)) > maxnumel:  # shrink the largest dimension (construction, not rejection)
         j = int(np.argmax(shp))
         shp[j] -= 1
+    if int(np.prod(shp)) == 1 and draw(st.integers(0, 9)) > 0:
+        shp[-1] = 2  # single-element layers are legal but say little: keep them rare
     return shp
 
 
@@ -723,46 +764,40 @@ def conv_case(draw, tier="quick"):
     return c
 
 
-def _axis_configs():
+def _axis_configs(tier):
+    smax, kmax, sdmax, pmax = (5, 3, 2, 1) if tier == "quick" else (6, 3, 3, 2)
     out = []
-    for size in range(1, 6):
-        for k in range(1, 4):
-            for s in (1, 2):
-                for d in (1, 2):
-                    if k == 1 and d == 2:
+    for size in range(1, smax + 1):
+        for k in range(1, kmax + 1):
+            for s in range(1, sdmax + 1):
+                for d in range(1, sdmax + 1):
+                    if k == 1 and d > 1:
                         continue  # dilation is vacuous for a 1-wide kernel
-                    for p in (0, 1):
+                    for p in range(0, pmax + 1):
                         if M.out_size(size, k, s, p, d) >= 1 and size + 2 * p >= d * (k - 1) + 1:
                             out.append((size, k, s, p, d))
     return out
 
 
 def _grid_cases(tier):
-    cfg = _axis_configs()
+    cfg = _axis_configs(tier)
     n = len(cfg)
-    if tier == "quick":
-        pairs = set()
-        for i in range(n):
-            for a, c in ((1, 0), (1, 1), (3, 7), (5, 11), (7, 29)):
-                j = (a * i + c) % n
-                pairs.add((i, j))
-                pairs.add((j, i))
-        pairs = sorted(pairs)
-    else:
-        pairs = [(i, j) for i in range(n) for j in range(n)]
-    for idx, (i, j) in enumerate(pairs):
-        a, b = cfg[i], cfg[j]
-        yield {
-            "batch": 1 + idx % 2, "bias": idx % 3 == 0, "dt": 1.0, "charge": 1.0, "f64": False,
-            "data": "dyadic", "wmode": "set", "delaymode": "none" if idx % 5 else "cap",
-            "spkdtype": "bool", "ninj": 1, "seed": idx,
-            "w": {"pool": [1, -2, 3, 5, -7], "seed": 1000 + idx}, "b": {"pool": [2, -3], "seed": 0},
-            "steps": [{"k": 0, "spk": {"pool": [1, 0, 0, 1, 1], "seed": 77 + idx},
-                       "inj": {"pool": [0], "seed": 500 + idx}}],
-            "C": 1 + (idx // 2) % 2, "F": 1 + (idx // 4) % 2,
-            "H": a[0], "W": b[0], "kernel": [a[1], b[1]], "stride": [a[2], b[2]],
-            "padding": [a[3], b[3]], "dilation": [a[4], b[4]], "scalar_args": idx % 2 == 0,
-        }
+    idx = 0
+    for i in range(n):
+        for j in range(n):
+            a, b = cfg[i], cfg[j]
+            idx += 1
+            yield {
+                "batch": 1 + idx % 2, "bias": idx % 3 == 0, "dt": 1.0, "charge": 1.0, "f64": False,
+                "data": "dyadic", "wmode": "set", "delaymode": "none" if idx % 5 else "cap",
+                "spkdtype": "bool", "ninj": 1, "seed": idx,
+                "w": {"pool": [1, -2, 3, 5, -7], "seed": 1000 + idx}, "b": {"pool": [2, -3], "seed": 0},
+                "steps": [{"k": 0, "spk": {"pool": [1, 0, 0, 1, 1], "seed": 77 + idx},
+                           "inj": {"pool": [0], "seed": 500 + idx}}],
+                "C": 1 + (idx // 2) % 2, "F": 1 + (idx // 4) % 2,
+                "H": a[0], "W": b[0], "kernel": [a[1], b[1]], "stride": [a[2], b[2]],
+                "padding": [a[3], b[3]], "dilation": [a[4], b[4]], "scalar_args": idx % 2 == 0,
+            }
 
 
 def _lat_op():
@@ -782,13 +817,16 @@ def _lat_op():
 
 @st.composite
 def lateral_case(draw, tier="quick"):
-    shape = draw(st.sampled_from([[1], [2], [2], [3], [3], [4], [2, 2], [2, 3], [1, 2, 2]]))
+    shape = draw(st.sampled_from([[2], [3], [1], [3], [4], [5], [2, 2], [2, 3], [1, 2, 2]]))
     maxops = 14 if tier == "quick" else 40
     ops = draw(st.lists(_lat_op(), min_size=2, max_size=maxops))
-    if draw(st.integers(0, 9)) < 7:
-        # construction: make sure the interesting path is reached (contribution with a
-        # non-zero diagonal followed by update())
-        ops = ops + [["uw", {"pool": [3], "seed": 0}, draw(_spec()), draw(st.integers(0, 2))], ["update"]]
+    if draw(st.integers(0, 9)) < 8:
+        # construction, not rejection: make sure the interesting paths are reached (values with a
+        # non-zero diagonal assigned, accumulated and applied), before or after the free part
+        nz = lambda: {"pool": draw(_nzpool), "seed": draw(_seed)}  # noqa: E731
+        fixed = [["w", nz()], ["d", nz()], ["uw", nz(), nz(), draw(st.integers(0, 2))],
+                 ["ud", nz(), nz(), draw(st.integers(0, 2))], ["update"]]
+        ops = fixed + ops if draw(st.booleans()) else ops + fixed
     return {
         "shape": shape, "scalar_shape": draw(st.booleans()),
         "batch": draw(st.sampled_from([1, 2, 3])), "dt": draw(st.sampled_from([1.0, 0.5])),
@@ -817,10 +855,10 @@ LEGS = [
              "unread trailing rows, non-square pairs); " + _FWD_RULE),
     Leg(name="convgrid", run=run_conv, enumerate=_grid_cases,
         quick_shards=4, thorough_shards=16, nt_floor=0.5,
-        rule="every (H,kH,sH,pH,dH) x (W,kW,sW,pW,dW) with sizes <= 5, kernel <= 3, stride/dilation <= 2, "
-             "padding <= 1 and a non-empty output (thorough: full product; quick: each axis configuration "
-             "paired with 5 others in both orders); " + _FWD_RULE,
-        exhaustive_note="finite small-geometry grid enumerated completely in the thorough tier"),
+        rule="every (H,kH,sH,pH,dH) x (W,kW,sW,pW,dW) with a non-empty output: quick sizes <= 5, kernel <= 3, "
+             "stride/dilation <= 2, padding <= 1 (78 x 78 geometries); thorough sizes <= 6, kernel <= 3, "
+             "stride/dilation <= 3, padding <= 2; fixed seeded dyadic data per geometry; " + _FWD_RULE,
+        exhaustive_note="finite small-geometry grid enumerated completely (full product of the two axes)"),
     Leg(name="lateral", run=run_lateral, strategy=lambda tier: lateral_case(tier),
         quick=300, thorough=2000, quick_shards=2, thorough_shards=8, nt_floor=0.4,
         rule="sequence of weight= / weight+= / delay= assignments, updater contributions, update(), STDP "
